@@ -303,14 +303,16 @@ impl<'a> GeneratorState<'a> {
         let v = match left {
             ExprType::Absolute(varname, _, _) => self.compiler_state.get_variable(varname),
             ExprType::AbsoluteX(varname) => self.compiler_state.get_variable(varname),
+            ExprType::AbsoluteY(varname) => self.compiler_state.get_variable(varname),
             _ => unreachable!()
         };
         // Cartridge RAM with separate read and write ports can't take read-modify-write
-        // instructions: shift through the accumulator instead
+        // instructions, and there is no Y indexed shift or rotate: shift through the
+        // accumulator instead
         let split_ports = match v.memory {
 #[cfg(feature = "atari2600")]
             VariableMemory::Superchip | VariableMemory::MemoryOnChip(_) => true,
-            _ => false,
+            _ => matches!(left, ExprType::AbsoluteY(_)),
         };
         let signed = v.signed;
         if let ExprType::Immediate(value) = right {
